@@ -1016,7 +1016,6 @@ def gen_scope_session(rng, model, params, index):
         body["lines"] = [l for l in body["lines"] if "label" not in l and "raw" not in l] or [{"v": "nop"}]
         body["lines"].append({"v": "ret"})
         body.pop("constraints", None)
-        body.pop("other", None)
         ops.insert(rng.randrange(len(ops) + 1), {"k": "insfn", "name": f"nf{index}_s", "patch": body})
     sd = {"ops": ops, "reg_order": list(range(len(ops)))}
     if rng.random() < 0.6:
@@ -1324,7 +1323,14 @@ def _gen_session(rng, model, params, index):
             if p and "lines" in p:
                 p["lines"] = [l for l in p["lines"] if not ("raw" in l and l["raw"].startswith(".cfi"))] or [{"v": "nop"}]
     order = list(range(len(ops)))
-    return {"ops": ops, "reg_order": order}
+    sd = {"ops": ops, "reg_order": order}
+    npatch = sum(1 for o in ops if o["k"] in ("ins", "rep") and "lines" in (o.get("patch") or {}))
+    if npatch and rng.random() < params.get("decline_p", 0.0):
+        # one of the patches declines (get_asm returns None): nothing is
+        # inserted and, for a replacement, nothing is removed; everything
+        # else of the session lands where it was asked to
+        sd["faults"] = {"callback": {str(rng.randint(1, npatch)): "none"}}
+    return sd
 
 
 def gen_retargets(rng, model, wl):
